@@ -311,11 +311,13 @@ def search_codecs(ck: Ck) -> None:
         ck.count('codec_oracle_pixels', len(pixels))
         ck.hist('codec_oracle_formats', name)
         if got != exp:
-            i = next(i for i in range(len(pixels)) if got[4 * i:4 * i + 4] != exp[4 * i:4 * i + 4])
             if name in ('RGB565', 'BGR565') and got == swap_rb(exp):
                 key, why = 'rgb565-rb-swap', 'R and B exchanged'
+                i = next(i for i in range(len(pixels)) if got[4 * i:4 * i + 4] != exp[4 * i:4 * i + 4])
             else:
                 key, why = f'pixel-mismatch-{name.lower()}', 'not the documented quantisation'
+                alt = swap_rb(exp) if name in ('RGB565', 'BGR565') else exp
+                i = next(i for i in range(len(pixels)) if got[4 * i:4 * i + 4] not in (exp[4 * i:4 * i + 4], alt[4 * i:4 * i + 4]))
             ck.violation(key, f'{name}: load(save({pixels[i]})) = {tuple(got[4 * i:4 * i + 4])}, documented quantisation '
                               f'{tuple(exp[4 * i:4 * i + 4])} ({why})', {'codec': name, 'pixel': list(pixels[i])})
         if st2 != st:
@@ -348,9 +350,9 @@ def gen_config(rng: random.Random, w: int, h: int, fmts: list[str]) -> dict:
         ids = rng.sample(['CRC', 'LOD', 'TSO', 'KVD', 'ABC', 'zz\x00', '\x02\x00\x00'], rng.choice([0, 0, 1, 2, 4]))
         for rid in ids:
             if rng.random() < 0.5:
-                cfg['resources'].append([rid, 0x02 | rng.choice([0, 0, 0x40]), rng.choice([0, 1, 0xFFFFFFFF, rng.randrange(1 << 32)])])
+                cfg['resources'].append([rid, rng.choice([0, 2, 2, 0x40, 0x42]), rng.choice([0, 1, 0xFFFFFFFF, rng.randrange(1 << 32)])])
             else:
-                cfg['resources'].append([rid, rng.choice([0, 0, 0x40]), rng.randbytes(rng.choice([0, 1, 5, 40])).hex()])
+                cfg['resources'].append([rid, rng.choice([0, 0, 2, 0x40]), rng.randbytes(rng.choice([0, 1, 5, 40])).hex()])
         if rng.random() < 0.3:
             sv = rng.choice([0, 1, 1])
             seqs = {}
@@ -459,7 +461,9 @@ def run_config(cfg: dict) -> list[tuple[str, str]]:
         if a != b:
             probs.append((f'meta-{name}', f'{name}: saved {a!r}, read back {b!r}'))
     if exp_version[1] >= 3:
-        if list(vtf.resources.items()) != list(v2.resources.items()):
+        # bit 0x02 of the flags says "the value is stored in the directory entry itself": save sets it from the type of the data
+        want = [(k, Resource((r.flags | 2) if isinstance(r.data, int) else (r.flags & ~2), r.data)) for k, r in vtf.resources.items()]
+        if want != list(v2.resources.items()):
             probs.append(('resources-differ', f'resources saved {vtf.resources!r}, read back {v2.resources!r}'))
         s1 = {k: (s.frames, bool(s.clamp), s.duration) for k, s in vtf.sheet_info.items()}
         s2 = {k: (s.frames, bool(s.clamp), s.duration) for k, s in v2.sheet_info.items()}
@@ -489,7 +493,8 @@ def run_config(cfg: dict) -> list[tuple[str, str]]:
                 probs.append(('rgb565-rb-swap', f'{cfg["fmt"]} frame {k}: read-back pixels are the quantisation with R and B exchanged'))
             else:
                 i = next(i for i in range(0, len(got), 4) if got[i:i + 4] != exp[i:i + 4])
-                probs.append((f'pixel-mismatch-{cfg["fmt"].lower()}', f'frame {k} pixel {i // 4}: input {tuple(orig[k][i:i + 4])} read back '
+                layout_bad = any(pk_.startswith(('meta-', 'frame-table', 'frame-dimensions', 'mipmap-count-wrong')) for pk_, _ in probs)
+                probs.append(('pixels-displaced-after-layout-mismatch' if layout_bad else f'pixel-mismatch-{cfg["fmt"].lower()}', f'frame {k} pixel {i // 4}: input {tuple(orig[k][i:i + 4])} read back '
                               f'{tuple(got[i:i + 4])}, expected {tuple(exp[i:i + 4])}'))
             break
     if cfg['thumb'] != 'NONE' and orig_low is not None and (v2._low_res.width, v2._low_res.height) == (vtf._low_res.width, vtf._low_res.height):
@@ -562,7 +567,7 @@ def search_files(ck: Ck) -> None:
     fmts = sorted(f.name for f in rw._SAVE if f in rw._LOAD)
     ck.extra['writable_formats'] = fmts
     sizes = [(1 << a, 1 << b) for a in range(7) for b in range(7)]
-    rounds = ck.budget(3, 30)
+    rounds = ck.budget(8, 60)
     configs = corpus_configs()
     n_corpus = len(configs)
     for r in range(rounds):
@@ -653,9 +658,13 @@ def search_filters(ck: Ck) -> None:
     modes = [FilterMode.UPPER_LEFT, FilterMode.UPPER_RIGHT, FilterMode.LOWER_LEFT, FilterMode.LOWER_RIGHT, FilterMode.BILINEAR]
     for (w, h) in [(2, 2), (4, 2), (2, 8), (8, 8), (16, 4), (32, 32)]:
         for m in modes:
-            vtf = VTF(w, h)
-            vtf.get().copy_from(ck.rng.randbytes(4 * w * h))
-            vtf.compute_mipmaps(m)
+            try:
+                vtf = VTF(w, h)
+                vtf.get().copy_from(ck.rng.randbytes(4 * w * h))
+                vtf.compute_mipmaps(m)
+            except Exception as e:
+                ck.violation(f'compute-mipmaps-raises-{type(e).__name__}', f'{w}x{h} filter {m.name}: {type(e).__name__}: {e}', {'filter': [w, h, m.value]})
+                continue
             ck.count('mipmap_chains')
             ck.seen(('filter', w, h, m.name))
             levels = sorted(k[2] for k in vtf._frames)
@@ -745,6 +754,7 @@ def run(ck: Ck) -> None:
             f = k.rsplit('-', 1)[1]
             ck.explain(f'instance:{f}_')
             ck.explain('correspondence:')
+            ck.explain('translate:PixelCodecs_gen')
         if k.startswith('frame-getitem'):
             ck.explain('instance:getitem_')
         if k.startswith('frame-setitem'):
@@ -754,7 +764,8 @@ def run(ck: Ck) -> None:
             ck.explain('instance:nearest_')
             ck.explain('instance:compute_mipmaps')
             ck.explain('build:')
-        if k.startswith(('mipmap-count', 'frame-table', 'mip-dimensions', 'save-raises', 'read-raises', 'frame-dimensions')):
+        if k.startswith(('mipmap-count', 'frame-table', 'mip-dimensions', 'save-raises', 'read-raises', 'frame-dimensions', 'compute-mipmaps-raises', 'pixels-displaced')):
+            ck.explain('translate:VtfLayout_gen')
             ck.explain('instance:mip')
             ck.explain('instance:read_level')
             ck.explain('instance:save_and_read')
